@@ -31,8 +31,8 @@ type Program struct {
 	// Repo packages (non-test), keyed by import path; includes the control package when loaded.
 	Repo map[string]*packages.Package
 	// Every package reachable, keyed by import path.
-	All  map[string]*packages.Package
-	SSA  *ssa.Program
+	All map[string]*packages.Package
+	SSA *ssa.Program
 	// All SSA functions (named, methods, anonymous) whose package is a repo package.
 	RepoFuncs []*ssa.Function
 	GOARCH    string
